@@ -4,29 +4,33 @@
  * Shape of the argument (refinement against a reference ordered map, DESIGN §4.4 / §4.5):
  *
  *   reference state  struct lht_abs : a sequence of entries (node, key, value) in iteration order = insertion order, of
- *                    ARBITRARY length.  Only a WINDOW of at most LHT_K entries is materialised: the entries an operation
- *                    can touch (the entry matching the operation key with both neighbours, the front, the back and their
- *                    neighbours where a cache evicts).  Between two materialised entries there may be a GAP: one or more
- *                    hidden entries, of which only the number (`hidden`) is known.  Every list of every length, with the
- *                    operation key matching any entry or none, has such a window, so nothing is lost (the window is chosen
- *                    per operation: "the neighbours of every entry the operation unlinks are visible").
+ *                    ARBITRARY length.  Only a WINDOW of LHT_K slots is materialised, in list order; every slot may be
+ *                    absent; after a present slot there may be a GAP: one or more hidden entries, of which only the total
+ *                    number (`hidden`, any size_t) is known.  A unit fixes which slot carries the entry the operation
+ *                    works on (the entry matching the operation key; the front / back a cache evicts or uses) and leaves
+ *                    the other slots arbitrary, so that entry may be the front, the back, the only one, next to either end
+ *                    or far from both.  The only thing demanded of the window is that the neighbours of an entry the
+ *                    operation UNLINKS are visible (no gap next to it): a choice of window, not a restriction of states.
  *   concrete state   the real struct aws_linked_hash_table, real heap nodes (one malloc block each, so every aliasing
  *                    pattern front/back/match/neighbour/sentinel occurs), the real intrusive list links.
- *   hash table       used ONLY through the client view below (lht_hash_*): a reference map from keys (compared by the
- *                    user's equality) to `struct aws_hash_element` cells, with an entry count.  It is an ASSUMED model of
- *                    source/hash_table.c; that the real table behaves like this map (find/create/remove/clear, destroy
- *                    callbacks exactly once per removed entry, count) is what property C02 discharges (bounded).  The model
- *                    calls the real destroy callbacks (s_element_destroy of linked_hash_table.c, the user's key
- *                    destructor), so what remove / clear do to the list is computed by the real code, not assumed.
- *   coupling         lht_check_*(): the concrete list, node fields, hash view and count are exactly the reference state.
+ *   hash table       used ONLY through the client view below (aws_hash_table_* bodies): a reference map from keys (compared
+ *                    by the user's equality) to `struct aws_hash_element` cells, with an entry count.  It is an ASSUMED
+ *                    model of source/hash_table.c; that the real table behaves like this map (find/create/remove/clear,
+ *                    destroy callbacks exactly once per removed entry - key first, then value -, count) is what property
+ *                    C02 discharges (bounded).  The model CALLS the registered destroy callbacks (the real
+ *                    s_element_destroy of linked_hash_table.c, the user's key destructor), so what remove / clear do to the
+ *                    list is computed by the real code, not assumed.  (That is why the hash table is a model with bodies and
+ *                    not a set of replaced contracts: a contract cannot invoke a callback.)
+ *   coupling         lht_check(): the concrete list links, node fields, hash view and count are exactly the reference state.
  *
- * A unit builds an arbitrary reference state + the matching concrete state (lht_build), computes the expected reference
- * state with the reference operation (lht_abs_*), runs the REAL function under a DFCC contract whose assigns/frees
- * clauses are the frame ("nothing else changed", incl. every hidden neighbour), and checks the coupling against the
- * expected reference state.  As the coupling is re-established after every operation, the statement holds after every
- * history of operations (induction over the history).
+ * A unit builds an arbitrary reference state + the matching concrete state (lht_build), runs the REAL function under a
+ * DFCC contract whose assigns/frees clauses are the frame ("nothing else changed", incl. every hidden neighbour: their
+ * stand-ins are in no assigns clause), applies the reference operation (lht_abs_*) and checks the coupling against the
+ * expected reference state.  As the coupling is re-established by every operation, the statement holds after every history
+ * of operations (induction over the history).
  *
- * Keys: NULL or a pointer to a record {id}; equal = same pointer or same id.  Several records may carry the same id
+ * Keys: NULL or a pointer to a record {id}; equal = same id (NULL only equals NULL).  Identities are canonical (slot i has
+ * identity i, a key that is not in the table identity LHT_K) because only equality matters; every identity has two records
  * (equal by comparison, distinct as pointers).  Values: opaque pointers.  Destructors: NULL or a counting callback.
  */
 #ifndef VERIF_CONTRACTS_LINKED_HASH_TABLE_H
@@ -199,6 +203,7 @@ int aws_hash_table_init(
     aws_hash_callback_eq_fn *equals_fn,
     aws_hash_callback_destroy_fn *destroy_key_fn,
     aws_hash_callback_destroy_fn *destroy_value_fn) {
+    if (g_T == NULL) g_T = AWS_CONTAINER_OF(map, struct aws_linked_hash_table, table); /* constructor units: the table is allocated inside the call */
     __CPROVER_assert(map == &g_T->table, "hash view: the table's own map is initialised");
     __CPROVER_assert(alloc == &g_lht_allocator, "hash view: initialised with the table's allocator");
     __CPROVER_assert(hash_fn != NULL && equals_fn != NULL, "hash view: hash and equality functions are given");
